@@ -9646,6 +9646,16 @@ def _write_node(node, xml_tree=None, viewport_transform=None):
             xml_tree.set(SVG_ATTR_RADIUS_X, str(node.rx))
         if node.ry is not None:
             xml_tree.set(SVG_ATTR_RADIUS_Y, str(node.ry))
+    elif isinstance(node, Circle) and node.rx != node.ry:
+        # A circle reified under a non-uniform scale has two radii: only an ellipse element can say that.
+        xml_tree = subxml(xml_tree, SVG_TAG_ELLIPSE)
+        xml_tree.attrib.pop(SVG_ATTR_RADIUS, None)
+        if node.cx is not None:
+            xml_tree.set(SVG_ATTR_CENTER_X, str(node.cx))
+        if node.cy is not None:
+            xml_tree.set(SVG_ATTR_CENTER_Y, str(node.cy))
+        xml_tree.set(SVG_ATTR_RADIUS_X, str(node.rx))
+        xml_tree.set(SVG_ATTR_RADIUS_Y, str(node.ry))
     elif isinstance(node, Circle):
         xml_tree = subxml(xml_tree, SVG_TAG_CIRCLE)
         if node.cx is not None:
